@@ -806,7 +806,11 @@ def _name(case, rng):
     composed, e2 = (None, '')
     if p['ok']:
         composed, e2 = _call(_compose, dict(p), phix, phin, dict(kw))
-    return dict(kind='name', name=case['name'], pipeline=p, exc_direct=e1, exc_composed=e2,
+    extra = {}
+    if p['ok'] and p['pre'] == 'atf_scaled_gev' and direct is not None and composed is not None and np.shape(direct) == np.shape(composed):
+        d2, c2 = np.reshape(direct, (-1, np.shape(direct)[-1])), np.reshape(composed, (-1, np.shape(composed)[-1]))
+        extra = dict(wd=[Z(x) for x in d2[:6]], wc=[Z(x) for x in c2[:6]])
+    return dict(kind='name', name=case['name'], pipeline=p, exc_direct=e1, exc_composed=e2, **extra,
                 d_direct='' if direct is None else enc.digest(np.ascontiguousarray(direct).astype(complex)),
                 d_composed='' if composed is None else enc.digest(np.ascontiguousarray(composed).astype(complex)),
                 exc='', fp=f't=name;name={case["name"]};kw={sorted(kw)}', key=f'name:{case["name"]}:{case["seed"]}')
